@@ -59,14 +59,25 @@ def one_case(ctx: Ctx, stream: str, i: int, max_nside: int) -> None:
     npix = 12 * nside * nside
     dt = np.float64 if x64 else np.float32
     land = HealpixLandscape(nside, kind, dt)
-    theta = np.array([rng.uniform(0.05, np.pi - 0.05) for _ in range(nsamp)])
-    phi = np.array([rng.uniform(0, 2 * np.pi) for _ in range(nsamp)])
-    psi = np.array([rng.uniform(-np.pi, np.pi) for _ in range(nsamp)])
+    # Euler angles: mostly a co-latitude / longitude / position angle in their usual ranges, but any real triple is
+    # a legal Z-Y-Z rotation: a third of the pointings use tilts outside [0, pi] and angles beyond one turn
+    wide = rng.random() < 0.35
+    if wide:
+        theta = np.array([rng.choice([rng.uniform(-np.pi + 0.05, -0.05), rng.uniform(np.pi + 0.05, 2 * np.pi - 0.05),
+                                      rng.uniform(0.05, np.pi - 0.05)]) for _ in range(nsamp)])
+        phi = np.array([rng.uniform(-2 * np.pi, 4 * np.pi) for _ in range(nsamp)])
+        psi = np.array([rng.uniform(-3 * np.pi, 3 * np.pi) for _ in range(nsamp)])
+    else:
+        theta = np.array([rng.uniform(0.05, np.pi - 0.05) for _ in range(nsamp)])
+        phi = np.array([rng.uniform(0, 2 * np.pi) for _ in range(nsamp)])
+        psi = np.array([rng.uniform(-np.pi, np.pi) for _ in range(nsamp)])
     samp = Sampling(jnp.asarray(theta, dtype=dt), jnp.asarray(phi, dtype=dt), jnp.asarray(psi, dtype=dt))
     dx = np.array([[rng.uniform(-0.2, 0.2) for _ in range(ndir)] for _ in range(ndet)])
     dy = np.array([[rng.uniform(-0.2, 0.2) for _ in range(ndir)] for _ in range(ndet)])
     dets = DetectorArray(dx, dy, 1.0)
-    cfg = {'nside': nside, 'kind': kind, 'ndet': ndet, 'ndir': ndir, 'nsamp': nsamp, 'x64': x64}
+    cfg = {'nside': nside, 'kind': kind, 'ndet': ndet, 'ndir': ndir, 'nsamp': nsamp, 'x64': x64,
+           'euler_range': 'wide' if wide else 'usual'}
+    ctx.count('euler:' + cfg['euler_range'])
 
     # ---- correspondence: rotation matrix ------------------------------------------------------------------
     rot = np.asarray(get_rotation_matrix(samp), dtype=np.float64)      # (3, 3, nsamp)
